@@ -35,6 +35,8 @@ def check_case(case, ctx):
         ctx.case(case, False)
         return
     p, rx = built
+    pat.apply_state(p, case.get('state', 'plain'))
+    ctx.count(f"state:{case.get('state', 'plain')}")
     what = f"{dsl.render(case['tree'])} (pattern {str(p)!r})"
     r, c, ie = case['repl'], case['count'], case['include_empty']
     nontrivial = False
@@ -119,6 +121,7 @@ def strategy(spec, ctx):
         'repl': st.sampled_from(['', '-', '<>', 'é', 'ab', ' ', '$1', '\n']),
         'count': st.one_of(st.integers(0, 5), st.integers(-3, 2)),
         'include_empty': st.booleans(),
+        'state': st.sampled_from(pat.STATES),
     })
 
 
